@@ -195,8 +195,20 @@ def prop_C19(run):
     rules_lim.lim1b(run)
     n = lim2_obligations(run)
     run.floor("LIM2", "arithmetic sites on user-sized values", n, 40)
-    for key, f, span, text in rules_lim.lim3(run):
-        run.violation("LIM3", key, "%s:%d" % (span["file"], span["line"]), text)
+    seen = set()
+    for key, f, span, status, text in rules_lim.lim3(run):
+        if key in seen:
+            continue
+        seen.add(key)
+        loc = "%s:%d" % (span["file"], span["line"])
+        if status == "violation":
+            run.violation("LIM3", key, loc, text)
+        elif status == "audited":
+            run.exception("LIM3", key, loc, text)
+        else:
+            run.ok("LIM3", key, loc, text)
+    rules_lim.cap_sources(run)
+    run.floor("LIM3", "iterated ranges inspected", run.counters.get("lim3_iterated_ranges", 0), 20)
     rules_lim.lim4(run)
     run.rules_run += ["LIM1 recursion cycles guarded", "LIM1b loop-carried Expr nesting", "LIM2 magnitude-class taint over machine arithmetic", "LIM3 user-sized loop bounds", "LIM4 capped big-integer operations"]
 
@@ -253,7 +265,16 @@ def prop_C01(run):
     run.rules_run += ["REJ no-match / tie / undefined symbol are errors on every path", "PIPE phases in order behind their success edges", "MPT emission sites", "RNG range predicates", "ERR5 no rejection swallowed"]
 
 
+def prop_C14(run):
+    import rules_mpt
+    rules_mpt.inclusion(run)
+    n = lim2_obligations(run, only=lambda key, f: "eval_builtin_inc" in key or "file_navigation" in key)
+    run.rules_run += ["INC1 names reaching the file server are navigated", "INC2 navigation validates, confines `..`, <std>/ never touches the disk, who-may-touch the file system",
+                      "INC3 include stack and #once", "INC4 range tests dominate the slice", "LIM2 on the range arithmetic"]
+
+
 PROPS = {
+    "C14": prop_C14,
     "C01": prop_C01,
     "C06": prop_C06,
     "C12": prop_C12,
